@@ -48,11 +48,8 @@ class MediaCipher(object):
         cipher_encryptor = Cipher(
             algorithms.AES(key), modes.CBC(iv), backend=default_backend()
         ).encryptor()
-        if len(plaintext) % 16 != 0:
-            padder = padding.PKCS7(128).padder()
-            padded_plaintext = padder.update(plaintext) + padder.finalize()
-        else:
-            padded_plaintext = plaintext
+        padder = padding.PKCS7(128).padder()
+        padded_plaintext = padder.update(plaintext) + padder.finalize()
         ciphertext = cipher_encryptor.update(padded_plaintext) + cipher_encryptor.finalize()
 
         mac = hmac.new(mac_key, digestmod=hashlib.sha256)
